@@ -142,6 +142,28 @@ func (fr *Frame) call(st *State, v ssa.Value, cc *ssa.CallCommon, in ssa.Instruc
 		if err != nil {
 			return fr.unsupportedErr(in, err)
 		}
+		if tp, ok := types.Unalias(cc.Value.Type()).(*types.TypeParam); ok {
+			// a constraint method on a value of type-parameter type: a pure, deterministic,
+			// otherwise unknown function of its arguments (holds for every instantiation
+			// whose method is a pure function; recorded as an assumption)
+			res := cc.Signature().Results()
+			if res.Len() == 1 {
+				rs, err := vc.tt.SortOf(res.At(0).Type())
+				if err == nil {
+					name := "tpm!" + sanitize(tp.Obj().Name()+"."+cc.Method.Name())
+					sorts := []Sort{recv.Sort}
+					all := []Term{recv}
+					for _, a := range args {
+						sorts = append(sorts, a.Sort)
+						all = append(all, a)
+					}
+					vc.DeclareFun(name, sorts, rs)
+					vc.assume("method " + cc.Method.Name() + " of type parameter " + tp.Obj().Name() + " is a pure deterministic function")
+					setResults([]Term{App(rs, name, all...)})
+					return nil
+				}
+			}
+		}
 		key := stripTypeArgs(typeKey(cc.Value.Type())) + "." + cc.Method.Name()
 		if c := vc.ifaceContractFor(key); c != nil {
 			sig := cc.Method.Type().(*types.Signature)
@@ -560,7 +582,17 @@ func (fr *Frame) applyContract(st *State, c *FuncContract, key string, sig *type
 	if c.ModifiesAll {
 		vc.havocAll(st)
 	} else if len(c.Modifies) > 0 {
-		if err := vc.havocModifies(st, env, c.Modifies); err != nil {
+		hints := map[string]types.Type{}
+		if ci, ok := in.(ssa.CallInstruction); ok {
+			cargs := ci.Common().Args
+			off := len(names) - len(cargs)
+			for i, a := range cargs {
+				if mi, ok := a.(*ssa.MakeInterface); ok && off+i >= 0 && off+i < len(names) {
+					hints[names[off+i]] = mi.X.Type()
+				}
+			}
+		}
+		if err := vc.havocModifies(st, env, c.Modifies, hints); err != nil {
 			vc.note("contract error: %s modifies: %v", key, err)
 			st.taint = True
 			vc.havocAll(st)
@@ -614,6 +646,24 @@ func (fr *Frame) applyContract(st *State, c *FuncContract, key string, sig *type
 		post.vars[k] = v
 	}
 	bindResults(post, sig, rs)
+	for _, gs := range c.Sets {
+		gv := vc.ctx.ghostVars[c.PkgPath+"::"+gs.Var]
+		if gv == nil {
+			vc.note("contract error: %s sets unknown ghost variable %s", key, gs.Var)
+			continue
+		}
+		v, err := post.Eval(gs.E)
+		if err != nil {
+			vc.note("contract error: %s sets %s: %v", key, gs.Var, err)
+			continue
+		}
+		cur, _, _ := vc.ghostVar(st, gv)
+		t := v.T
+		if v.Lit != nil {
+			t = post.litTerm(v.Lit, cur.Sort)
+		}
+		st.ghost["gv!"+gv.PkgPath+"::"+gv.Name] = vc.Define("gs", t)
+	}
 	for _, en := range c.Ensures {
 		t, err := post.EvalBool(en.E)
 		if err != nil {
@@ -634,10 +684,11 @@ func (fr *Frame) applyContract(st *State, c *FuncContract, key string, sig *type
 
 // havocModifies replaces the heaps of the sorts named by the modifies clauses
 // with fresh ones that agree with the old ones outside the named locations.
-func (vc *VC) havocModifies(st *State, env *SpecEnv, mods []*Expr) error {
+func (vc *VC) havocModifies(st *State, env *SpecEnv, mods []*Expr, hints map[string]types.Type) error {
 	type rng struct{ cond string }
 	per := map[Sort][]string{}
 	q := Term{"q!r", SRef}
+	var wholeObjects []Term // rid terms of objects that may change in every sort
 	addRegion := func(addr Term, t types.Type, count Term) {
 		leaf := map[Sort]bool{}
 		vc.leafSorts(t, leaf)
@@ -657,6 +708,34 @@ func (vc *VC) havocModifies(st *State, env *SpecEnv, mods []*Expr) error {
 		}
 	}
 	for _, m := range mods {
+		if m.Kind == ECall && m.Args[0].Kind == EIdent && m.Args[0].Name == "pointee" && len(m.Args) == 2 {
+			// what an interface-typed argument points to: the exact region when the call site
+			// shows the dynamic type (a *T made into an interface there), else the whole object
+			x, err := env.Eval(m.Args[1])
+			if err != nil {
+				return err
+			}
+			if x.T.Sort != SIface {
+				return fmt.Errorf("pointee() of a non-interface value")
+			}
+			if m.Args[1].Kind == EIdent {
+				if ht, ok := hints[m.Args[1].Name]; ok {
+					if pt, ok := ht.Underlying().(*types.Pointer); ok {
+						leaf := map[Sort]bool{}
+						vc.leafSorts(pt.Elem(), leaf)
+						slots := vc.tt.Slots(pt.Elem())
+						addr := IRefOf(x.T)
+						cond := And(Eq(Rid(q), Rid(addr)), Le(Roff(addr), Roff(q)), Lt(Roff(q), Add(Roff(addr), IntLit(slots)))).S
+						for s := range leaf {
+							per[s] = append(per[s], cond)
+						}
+						continue
+					}
+				}
+			}
+			wholeObjects = append(wholeObjects, Rid(IRefOf(x.T)))
+			continue
+		}
 		if m.Kind == ESlice {
 			x, err := env.Eval(m.Args[0])
 			if err != nil {
@@ -691,6 +770,14 @@ func (vc *VC) havocModifies(st *State, env *SpecEnv, mods []*Expr) error {
 			return err
 		}
 		addRegion(addr, t, Term{})
+	}
+	if len(wholeObjects) > 0 {
+		for s := range vc.heapReg {
+			for _, r := range wholeObjects {
+				per[s] = append(per[s], Eq(Rid(q), r).S)
+			}
+		}
+		vc.assume("pointee(x) of unknown dynamic type: every slot of the object x points to may change, in the heap sorts the function under verification mentions")
 	}
 	var sl []string
 	for s := range per {
@@ -1030,6 +1117,40 @@ func (fr *Frame) contractCallEffects(c *FuncContract, sig *types.Signature, recv
 	c.Modifies = saved
 	names, tys := sigNames(sig, recvT)
 	for _, m := range c.Modifies {
+		if m.Kind == ECall && m.Args[0].Kind == EIdent && m.Args[0].Name == "pointee" && len(m.Args) == 2 && m.Args[1].Kind == EIdent {
+			handled := false
+			for i, n := range names {
+				if n != m.Args[1].Name || i >= len(argVals) {
+					continue
+				}
+				if mi, ok := argVals[i].(*ssa.MakeInterface); ok {
+					if pt, ok := mi.X.Type().Underlying().(*types.Pointer); ok {
+						leaf := map[Sort]bool{}
+						vc.leafSorts(pt.Elem(), leaf)
+						root, rok := fr.rootOf(mi.X, li)
+						for s := range leaf {
+							switch {
+							case rok && !root.Valid():
+								ef.fresh[s] = true
+							case rok:
+								ef.sorts[s] = append(ef.sorts[s], root)
+							default:
+								ef.unk[s] = true
+							}
+							if _, has := ef.sorts[s]; !has {
+								ef.sorts[s] = nil
+							}
+						}
+						handled = true
+					}
+				}
+			}
+			if !handled {
+				ef.all = true
+				return
+			}
+			continue
+		}
 		idx, t, ok := modTarget(m, names, tys)
 		if !ok || idx >= len(argVals) {
 			ef.all = true
@@ -1097,6 +1218,9 @@ func (fr *Frame) contractCallEffects(c *FuncContract, sig *types.Signature, recv
 func (fr *Frame) contractEffects(c *FuncContract, ef *effects) {
 	for _, g := range c.Assigns {
 		ef.ghostVars[c.PkgPath+"::"+g] = true
+	}
+	for _, gs := range c.Sets {
+		ef.ghostVars[c.PkgPath+"::"+gs.Var] = true
 	}
 	if c.Logged {
 		for n := range fr.vc.ctx.ghostVars {
